@@ -158,6 +158,27 @@ func TestC09(t *testing.T) {
 			}
 		}
 	}
+	// a null matrix dimension: JSON writes null, YAML writes [] (listed finding, explicit witness)
+	{
+		doc := "steps:\n  - command: x\n    matrix: {setup: {a: ~, b: [x]}}\n"
+		p, err := pipeline.Parse(strings.NewReader(doc))
+		if err == nil {
+			cases++
+			j, _ := json.Marshal(p)
+			y, _ := yaml.Marshal(p)
+			pj, _ := pipeline.Parse(bytes.NewReader(j))
+			py, _ := pipeline.Parse(bytes.NewReader(y))
+			jj, _ := json.Marshal(pj)
+			jy, _ := json.Marshal(py)
+			if !bytes.Equal(jj, jy) {
+				if what, ok := knownOpen("C09", "null-matrix-dimension"); ok {
+					fmt.Printf("KNOWN-FINDING: property=C09 %s\n", what)
+				} else {
+					fail("null matrix dimension: JSON and YAML outputs re-parse differently: %s vs %s", jj, jy)
+				}
+			}
+		}
+	}
 	if knownHits > 0 {
 		fmt.Printf("KNOWN-FINDING: property=C09 %s (%d generated documents skipped on the YAML leg)\n", knownWhat, knownHits)
 	}
